@@ -1122,7 +1122,7 @@ pub struct udp__AEADCipherCodec<const N: usize> {
     kind: CipherKind,
 }
 
-//@@ octo-squirrel/src/codec/shadowsocks/udp.rs:38-347  impl AEADCipherCodec {fn new,fn encode,fn new_encoder,fn decode,fn decode_server_packet_aead_2022,fn decode_client_packet_aead_2022,fn new_decoder}  sha=c4e89f10bd893e30
+//@@ octo-squirrel/src/codec/shadowsocks/udp.rs:38-347  impl AEADCipherCodec {fn new,fn encode,fn encode_client_packet_aead_2022,fn encode_server_packet_aead_2022,fn new_encoder,fn decode,fn decode_server_packet_aead_2022,fn decode_client_packet_aead_2022,fn new_decoder}  sha=b25ce0031ba252b6
 impl<const N: usize> udp__AEADCipherCodec<N> {
     fn new(kind: CipherKind) -> Self {
         Self { kind }
@@ -1142,6 +1142,124 @@ impl<const N: usize> udp__AEADCipherCodec<N> {
                 let mut encoder = self.new_encoder(context.key, salt)?;
                 encoder.encode_packet(temp, dst).map_err(|e| verif_err())
             }
+        }
+    }
+
+    fn encode_client_packet_aead_2022(
+        &self,
+        context: &udp__Context<N>,
+        session: &udp__Session<N>,
+        address: &Address,
+        item: BytesMut,
+        dst: &mut BytesMut,
+    ) -> anyhow::Result<()> {
+        let padding_length = a22__next_padding_length(&item);
+        let nonce_size = a22udp__nonce_length(self.kind);
+        let tag_size = self.kind.tag_size();
+        let require_eih = self.kind.support_eih() && !context.identity_keys.is_empty();
+        let eih_len = if require_eih { 16 * context.identity_keys.len() } else { 0 };
+        dst.reserve(nonce_size + 8 + 8 + eih_len + 1 + 8 + 2 + padding_length as usize + address__length(address) + item.remaining() + tag_size);
+        if nonce_size > 0 {
+            unsafe { dst.advance_mut(nonce_size) };
+            let nonce = dst.v_range_mut(0,nonce_size);
+            dice::fill_bytes(nonce);
+        }
+        dst.put_u64(session.client_session_id);
+        dst.put_u64(session.packet_id);
+        if require_eih {
+            let mut session_id_packet_id = [0; 16];
+            session_id_packet_id.copy_from_slice(&dst[nonce_size..]);
+            a22udp__with_eih(self.kind, context.key, context.identity_keys, &session_id_packet_id, dst)?
+        }
+        dst.put_u8(Mode::Client.to_u8());
+        dst.put_u64(a22__now()?);
+        dst.put_u16(padding_length);
+        dst.extend_from_slice(&dice::roll_bytes(padding_length as usize));
+        address__encode(address, dst);
+        dst.extend_from_slice(&item);
+        unsafe {
+            dst.advance_mut(tag_size);
+        }
+        match self.kind {
+            CipherKind::Aead2022Blake3Aes128Gcm | CipherKind::Aead2022Blake3Aes256Gcm => {
+                let (header, mut text) = dst.split_at_mut(16);
+                let mut nonce = [0; 12];
+                nonce.copy_from_slice(&header[4..16]);
+                let key = if context.identity_keys.is_empty() { context.key } else { &context.identity_keys[0] };
+                a22udp__aes_encrypt_in_place(self.kind, key, header)?;
+                if eih_len > 0 {
+                    text = verif_reslice_mut(text,eih_len);
+                }
+                let cipher = unsafe { udp__get_cipher(self.kind, context.key, session.client_session_id) };
+                cipher.encrypt_in_place_detached(&nonce, &[], text).map_err(|e| verif_err())?;
+                Ok(())
+            }
+            CipherKind::Aead2022Blake3ChaCha8Poly1305 | CipherKind::Aead2022Blake3ChaCha20Poly1305 => {
+                let (nonce, plaintext) = dst.split_at_mut(nonce_size);
+                let cipher = unsafe { udp__get_cipher(self.kind, context.key, session.client_session_id) };
+                cipher.encrypt_in_place_detached(nonce, &[], plaintext).map_err(|e| verif_err())?;
+                Ok(())
+            }
+            _ => return Err(verif_err()),
+        }
+    }
+
+    fn encode_server_packet_aead_2022(
+        &self,
+        context: &udp__Context<N>,
+        session: &udp__Session<N>,
+        address: &Address,
+        item: BytesMut,
+        dst: &mut BytesMut,
+    ) -> anyhow::Result<()> {
+        let padding_length = a22__next_padding_length(&item);
+        let nonce_length = a22udp__nonce_length(self.kind);
+        let tag_size = self.kind.tag_size();
+        dst.reserve(nonce_length + 8 + 8 + 1 + 8 + 8 + 2 + padding_length as usize + address__length(address) + item.remaining() + tag_size);
+        if nonce_length > 0 {
+            unsafe {
+                dst.advance_mut(nonce_length);
+            }
+            let nonce = dst.v_range_mut(0,nonce_length);
+            dice::fill_bytes(nonce);
+        }
+        dst.put_u64(session.server_session_id);
+        dst.put_u64(session.packet_id);
+        dst.put_u8(Mode::Server.to_u8());
+        dst.put_u64(a22__now()?);
+        dst.put_u64(session.client_session_id);
+        dst.put_u16(padding_length);
+        if padding_length > 0 {
+            unsafe {
+                dst.advance_mut(padding_length as usize);
+            }
+        }
+        address__encode(address, dst);
+        dst.extend_from_slice(&item);
+        unsafe { dst.advance_mut(tag_size) };
+        match self.kind {
+            CipherKind::Aead2022Blake3Aes128Gcm | CipherKind::Aead2022Blake3Aes256Gcm => {
+                let (header, text) = dst.split_at_mut(16);
+                let mut nonce = [0; 12];
+                nonce.copy_from_slice(&header[4..16]);
+                let key = if let Some(user) = &session.user {
+                    /*R2*/
+                    &user.key
+                } else {
+                    context.key
+                };
+                a22udp__aes_encrypt_in_place(self.kind, key, header)?;
+                let cipher = unsafe { udp__get_cipher(self.kind, key, session.server_session_id) };
+                cipher.encrypt_in_place_detached(&nonce, &[], text).map_err(|e| verif_err())?;
+                Ok(())
+            }
+            CipherKind::Aead2022Blake3ChaCha8Poly1305 | CipherKind::Aead2022Blake3ChaCha20Poly1305 => {
+                let (nonce, plaintext) = dst.split_at_mut(nonce_length);
+                let cipher = unsafe { udp__get_cipher(self.kind, context.key, session.server_session_id) };
+                cipher.encrypt_in_place_detached(nonce, &[], plaintext).map_err(|e| verif_err())?;
+                Ok(())
+            }
+            _ => return Err(verif_err()),
         }
     }
 
